@@ -73,7 +73,16 @@ def model_save(present, step, keep, keep_every, overwrite, backend):
 def tree_for(step):
   import numpy as np
   v = float(step)
-  return {'w': np.full((3,), v, np.float32), 'nested': {'step': np.asarray(v, np.float64), 'ids': np.arange(4, dtype=np.int32) + _tag(v)}}
+  # 'kernel' is a transposed weight (Fortran-ordered, as w.T of a converted checkpoint is): element (r, c) = 10 r + c + tag
+  return {'w': np.full((3,), v, np.float32), 'nested': {'step': np.asarray(v, np.float64), 'ids': np.arange(4, dtype=np.int32) + _tag(v)},
+          'kernel': _kernel(v)}
+
+
+def _kernel(v):
+  import numpy as np
+  k = (np.arange(3, dtype=np.float32)[:, None] + 10.0 * np.arange(2, dtype=np.float32)[None, :] + _tag(v)).T    # shape (2, 3), F-contiguous
+  assert k.flags.f_contiguous and not k.flags.c_contiguous
+  return k
 
 
 def _tag(v):
@@ -85,7 +94,8 @@ def tree_step(tree):
   import numpy as np
   v = float(np.asarray(tree['nested']['step']))
   ok = (np.array_equal(np.asarray(tree['w']), np.full((3,), v, np.float32)) and
-        np.array_equal(np.asarray(tree['nested']['ids']), np.arange(4, dtype=np.int32) + _tag(v)) and set(tree) == {'w', 'nested'})
+        np.array_equal(np.asarray(tree['nested']['ids']), np.arange(4, dtype=np.int32) + _tag(v)) and set(tree) == {'w', 'nested', 'kernel'} and
+        np.asarray(tree['kernel']).shape == (2, 3) and np.array_equal(np.asarray(tree['kernel']), np.asarray(_kernel(v))))
   if not ok:
     raise ValueError('corrupt tree: %r' % (tree,))
   return v
